@@ -51,7 +51,7 @@ class Frame:
 
 class Alt:
     """one guarded alternative of a thread"""
-    __slots__ = ("guard", "frames", "thread", "nalloc", "nspawn", "ov", "status", "panic", "resume", "opt", "ninstr", "info", "rd", "ack", "pending", "dead")
+    __slots__ = ("guard", "frames", "thread", "nalloc", "nspawn", "ov", "status", "panic", "resume", "opt", "ninstr", "info", "rd", "ack", "pending", "dead", "foot", "en_last")
 
     def __init__(self, thread, guard):
         self.thread = thread
@@ -70,6 +70,8 @@ class Alt:
         self.ack = None
         self.pending = None
         self.dead = None
+        self.foot = None      # (reads, writes) of the last examination as a scheduling candidate
+        self.en_last = None   # its enabledness formula at that time
 
     def copy(self):
         a = Alt(self.thread, self.guard)
@@ -126,7 +128,8 @@ class Machine:
         self.solver = z3.SolverFor("QF_BV")
         self.solver.set("timeout", check_timeout_ms)
         self.nchecks_since_reset = 0
-        self.fresh_checks = True
+        self.fresh_checks = False
+        self.nslow = 0
         self.constraints = []
         self.violations = []   # (kind, formula, msg, pos, step)
         self.log = []          # (step, seq, guard, tid, tag, args)
@@ -145,6 +148,7 @@ class Machine:
         self.stats = dict(instrs=0, forks=0, solver_checks=0, solver_s=0.0, macro_steps=0, merges=0, alts=0)
         self.inconclusive = []
         self.init_done = set()
+        self.init_allowed = set()
         self.skip_init = True
         self.map_perm = False
         self.live_cache = {}
@@ -255,8 +259,13 @@ class Machine:
         r = self.feas_cache.get(key)
         if r is not None:
             return r[0]
-        import time
+        import time, sys as _sys
         t0 = time.time()
+        if self.debug_slow:
+            fr_ = _sys._getframe(1)
+            key_ = "%s:%d" % (fr_.f_code.co_name, fr_.f_lineno)
+            self.stats.setdefault("by_site", {})
+            self.stats["by_site"][key_] = self.stats["by_site"].get(key_, 0) + 1
         # counterexample cache: a recent model of all constraints that also satisfies f
         for ent in self.models:
             mdl, n = ent
@@ -274,27 +283,18 @@ class Machine:
                 self.stats["solver_s"] += time.time() - t0
                 return True
         t1 = time.time()
-        if self.fresh_checks:
-            s1 = z3.Solver()
-            s1.set("timeout", self.check_timeout_ms)
-            s1.add(*self.constraints)
-            s1.add(f)
-            res = s1.check()
-            self.solver_last = s1
-        else:
-            self.nchecks_since_reset += 1
-            if self.nchecks_since_reset > 40:
-                self.reset_solver()
+        # adaptive: incremental solver with a short budget first; when it does not answer its state has
+        # degraded (measured) - rebuild it from the assertions and ask again with the full budget
+        self.nchecks_since_reset += 1
+        if self.nchecks_since_reset > 300:
+            self.reset_solver()
+        self.solver.set("timeout", 250)
+        res = self.solver.check(f)
+        if res == z3.unknown:
+            self.stats["fresh_fallbacks"] = self.stats.get("fresh_fallbacks", 0) + 1
+            self.reset_solver()
             res = self.solver.check(f)
-            self.solver_last = self.solver
-        if time.time() - t1 > 3 and self.debug_slow and not getattr(self, "_dumped", False):
-            self._dumped = True
-            s2 = z3.Solver()
-            s2.add(*self.constraints)
-            s2.add(f)
-            open("/tmp/slow.smt2", "w").write(s2.to_smt2())
-        if time.time() - t1 > 0.3 and self.debug_slow:
-            print("    slow check %.2fs -> %s  (step %d, f=%s)" % (time.time() - t1, res, self.step, str(f)[:150].replace("\n", " ")), flush=True)
+        self.solver_last = self.solver
         self.stats["solver_checks"] += 1
         r = (res != z3.unsat)
         if res == z3.sat:
@@ -617,6 +617,8 @@ class Machine:
         if not alt.frames:
             return
         caller = alt.frames[-1]
+        if fr.tag == "init":
+            return
         if fr.tag == "deferred":
             # resume the caller's RunDefers / unwinding
             if caller.panicking:
@@ -754,6 +756,8 @@ def eq_vals(m, a, b):
         if type(o) is Slice:
             return o.obj is None
         return False
+    if ta is Slice and tb is Slice and (a.obj is None or b.obj is None):
+        return a.obj is None and b.obj is None
     if ta is Slice or tb is Slice:
         raise Unsupported("slice comparison")
     if ta is float or tb is float:
@@ -1527,6 +1531,13 @@ def i_call(m, alt, fr, ins, work):
 
 
 def dispatch_call(m, alt, fr, ins, name, args, fv, work):
+    if type(name) is str and name.endswith(".init") and not name.startswith("("):
+        # package initialisers: only the packages the scenario names are initialised
+        pkg = name[:-5]
+        if pkg not in m.init_allowed or pkg in m.init_done:
+            fr.idx += 1
+            return None
+        m.init_done.add(pkg)
     ov = m.overrides.get(name) if type(name) is str else None
     if ov is not None:
         name = ov
